@@ -228,7 +228,7 @@ def gen_op_fields(r, o, op, mode, maxn, types):
         op["m"] = [r.choice([0, 1, 1, 0, 2, -1]) for _ in range(maxn)]
         if o == "mask":
             op["live"] = r.chance(0.35)
-        op["dlen"] = r.weighted([(9, 0), (1, r.choice([-1, 1, 2]))]) if mode == "faults" else 0
+        op["dlen"] = r.weighted([(9, 0), (1, r.choice([-1, 1, 2, "zero"]))]) if mode == "faults" else 0
         if o == "setm_a":
             op["form"] = r.weighted([(4, "full"), (4, "packed"), (2, "bad")]) if mode == "faults" else r.weighted([(4, "full"), (4, "packed")])
         if o == "ifelse_a":
@@ -577,7 +577,8 @@ class Sim(FAM.FamilyMixin):
         bits = list(op["m"])
         while len(bits) < n + 5:
             bits += bits or [1]
-        ln = max(0, n + op.get("dlen", 0))
+        d = op.get("dlen", 0)
+        ln = 0 if d == "zero" else max(0, n + d)
         if h is not None and h.masked and ln != n and ln == h.ulen:
             # a mask as long as the array a masked reference was taken from is accepted (documented
             # non-strict match); that sub-case is neither demanded nor forbidden here: avoid it
@@ -832,7 +833,9 @@ class Sim(FAM.FamilyMixin):
             got = self.call(fn, to_real(h.tname, v))
             per = [v] * n
         elif rhs in ("array", "badlen"):
-            ln = n if rhs == "array" else n + 1
+            ln = n if rhs == "array" else [n + 1, 0, max(0, n - 1), 2 * n + 1][op["v"] % 4]
+            if ln == n:
+                ln = n + 1
             if ln != n and h.masked and ln == h.ulen:
                 ln += 1     # the unmasked length is a legal operand length for a masked left-hand side
             vals = [small(op["v"] * 16 + i) for i in range(ln)]
